@@ -451,6 +451,11 @@ where
             && change.orchard() <= 1
             && change.sapling() == 0
             && change.transparent() == 0
+            // An ephemeral transparent output is recorded as transparent change in the finished
+            // balance (and counted as such by `Step::is_canonical_crossing`), so it rules the
+            // crossing out while the fee is being computed as well; otherwise the fee would be
+            // charged for an unpadded Ironwood bundle while the recorded shape is padded.
+            && !ephemeral_balance.is_some_and(|b| b.is_output())
             && match ironwood.outputs() {
                 [output] => constants.is_canonical_denomination(output.value()),
                 _ => false,
